@@ -227,7 +227,7 @@ pub static MODELS: &[Model] = &[
     m("Dest", Shape::Scalar, "[3 0 R /XYZ 10 20 1.5]", &[], false,
       &[("", &["[3 0 R /XYZ null null 0]", "[3 0 R /XYZ null 20 null]", "[3 0 R /XYZ 10 20]", "[3 0 R /Fit]", "[3 0 R /FitH 5]", "[3 0 R /FitV 5.5]", "[3 0 R /FitR 1 2 3 4]", "[3 0 R /FitB]", "[3 0 R /FitBH 7]", "[null /Fit]", "<< /D [3 0 R /Fit] >>", "[0 /Fit]"])], &[]),
     m("MaybeNamedDest", Shape::Scalar, "(named)", &[], false, &[("", &["[3 0 R /Fit]", "()", "<< /D [3 0 R /FitH 5] >>", "[3 0 R /XYZ 1 2 3]"])], &[]),
-    m("Action", Shape::Dict, "<< /S /GoTo /D [3 0 R /Fit] >>", &["S"], false,
+    m("Action", Shape::Dict, "<< /S /GoTo /D [3 0 R /Fit] >>", &["S", "D"], false,
       &[("D", &["(named)", "[3 0 R /XYZ null null 0]"]), ("S", &["/URI", "/Named", "/GoToR"])], &[]),
     m("Action:Other", Shape::Dict, "<< /Type /Action /S /URI /URI (http://example.org) /Next << /S /Named /N /NextPage >> >>", &["S"], false, &[], &[]),
     m("Encoding", Shape::Dict, "<< /Type /Encoding /BaseEncoding /WinAnsiEncoding /Differences [65 /A /B 70 /F] >>", &[], false,
@@ -273,7 +273,7 @@ pub static MODELS: &[Model] = &[
     m("bool", Shape::Scalar, "true", &[], false, &[("", &["false"])], &[]),
     // reader-only models (C18)
     ro("OutlineItem", Shape::Dict, "<< /Title (a) /Prev 13 0 R /Next 14 0 R /First 13 0 R /Last 14 0 R /Count 2 /Dest [3 0 R /Fit] /A << /S /GoTo /D [3 0 R /Fit] >> /SE << /X 1 >> /C [1 0 0] /F 1 >>", &[]),
-    ro("CryptDict", Shape::Dict, "<< /Filter /Standard /V 4 /R 4 /Length 128 /O (01234567890123456789012345678901) /U (01234567890123456789012345678901) /P -4 /CF << /StdCF << /Type /CryptFilter /CFM /AESV2 /AuthEvent /DocOpen /Length 16 >> >> /StmF /StdCF /StrF /StdCF /EncryptMetadata false >>", &["Filter", "V", "R", "O", "U", "P"]),
+    ro("CryptDict", Shape::Dict, "<< /Filter /Standard /V 4 /R 4 /Length 128 /O (01234567890123456789012345678901) /U (01234567890123456789012345678901) /P -4 /CF << /StdCF << /Type /CryptFilter /CFM /AESV2 /AuthEvent /DocOpen /Length 16 >> >> /StmF /StdCF /StrF /StdCF /EncryptMetadata false >>", &["V", "R", "O", "U", "P"]),
     ro("ObjStmInfo", Shape::Dict, "<< /Type /ObjStm /N 1 /First 4 /Extends 4 0 R >>", &["Type", "N", "First"]),
     ro("NameDictionary", Shape::Dict, "<< /Dests << /Names [(a) [3 0 R /Fit]] >> /EmbeddedFiles << /Names [(f) 32 0 R] >> /JavaScript << /Names [(j) << /S /JavaScript /JS (x) >>] >> /AlternativePresentations << /Names [] >> /Renditions << /Names [] >> >>", &[]),
 ];
@@ -285,8 +285,17 @@ pub fn model(name: &str) -> Option<&'static Model> {
 /// Build a case file: the zoo, the subject (object SUBJECT) and auxiliary objects; classic cross-reference table
 /// with free entries for the gap, /Size right after the last object.
 pub fn case_file(subject: &Val, aux: &[(u64, Val)], freed: &[u64]) -> (Vec<u8>, u64) {
+    case_file_with(subject, aux, freed, &[])
+}
+/// `overrides` replace zoo objects (same number).
+pub fn case_file_with(subject: &Val, aux: &[(u64, Val)], freed: &[u64], overrides: &[(u64, Val)]) -> (Vec<u8>, u64) {
     let mut w = Writer::new(b"", "1.7");
     for (n, v, data) in zoo() {
+        let (v, data) = match overrides.iter().find(|(k, _)| *k == n) {
+            Some((_, Val::Stream(d, bytes))) => (Val::Dict(d.clone()), Some(bytes.0.clone())),
+            Some((_, o)) => (o.clone(), None),
+            None => (v, data),
+        };
         match (v, data) {
             (Val::Dict(d), Some(data)) => {
                 w.stream_obj(n, 0, &d, &data);
